@@ -434,6 +434,14 @@ class Run:
             self._finish_calls()
             self.unhandled = [type(c.get('exception')).__name__ for c in loop.unhandled
                               if c.get('exception') is not None]
+        # keep plain data only: live tasks/loops of finished scenarios would pile up in asyncio's
+        # global task registry and make every later session slower
+        for c in self.calls:
+            c.clear()
+        self.calls, self.started = [], []
+        self.loop = self.proto = self.tr = self.peer = self.end_ = None
+        self.ping_handle_before = None
+        self.ack_frames, self.other_out = [], []
         return self
 
     def is_closed(self):
@@ -872,7 +880,12 @@ def signature(case, r):
 
 # ------------------------------------------------------------------------------------------------
 
-def check_runs(ctx, res, cases):
+def check_runs(ctx, res, cases, chunk=2000):
+    for i in range(0, len(cases), chunk):
+        check_runs_chunk(ctx, res, cases[i:i + chunk])
+
+
+def check_runs_chunk(ctx, res, cases):
     runs = []
     for case in cases:
         try:
@@ -1002,7 +1015,7 @@ def run(ctx):
                 'time, limits shape, peer kind, traffic pattern, #pings, closed?, #acks)')
     corpus = ctx.corpus()
     runs, conf, none = split_cases(corpus)
-    n = ctx.n(4000, 100000)
+    n = ctx.n(6000, 100000)
     for _ in range(n):
         runs.append(gen_case(rng))
     conf += [{'op': 'validate', 'field': f, 'value': {'v': v}} for f in FIELDS for v in VALUES]
